@@ -150,9 +150,34 @@ Fixpoint table_from_pairs_loop_d (m : kvs) (pairs : list (list key * (key * item
       end
   end.
 
+(* spans of tables made of dotted keys: from the table's first key to the end of its last value
+   (inline_table.rs descend_path: `if sweet_child_of_mine.is_dotted() { ... span ... }`).
+   The Rust code widens the span while descending; doing it for all pairs after the loop gives the
+   same result (min/max are order-independent) and leaves the loop functions untouched. *)
+Definition key_span (k : key) : ospan := match k_repr k with Some r => raw_span r | None => None end.
+Definition item_end (it : item) : option N := match item_span it with Some sp => Some (snd sp) | None => None end.
+Definition widen (sp : ospan) (ks : N * N) (e : N) : ospan :=
+  Some (match sp with Some s => (N.min (fst s) (fst ks), N.max (snd s) e) | None => (fst ks, e) end).
+Fixpoint inline_set_spans (m : kvs) (path : list key) (value_end : option N) : kvs :=
+  match path with
+  | [] => m
+  | k :: ptl =>
+    match kv_get m (k_key k) with
+    | Some (_, IValue (VInline sub pre imp dt dec sp)) =>
+      let sp1 := if dt then match key_span k, value_end with
+                            | Some ks, Some e => widen sp ks e
+                            | _, _ => sp end
+                 else sp in
+      kv_set m (k_key k) (IValue (VInline (inline_set_spans sub ptl value_end) pre imp dt dec sp1))
+    | _ => m
+    end
+  end.
+Definition inline_spans_pass (m : kvs) (pairs : list (list key * (key * item))) : kvs :=
+  fold_left (fun acc p => match p with (path, (_, v)) => inline_set_spans acc path (item_end v) end) pairs m.
+
 Definition table_from_pairs (pairs : list (list key * (key * item))) (preamble : raw) : tm value :=
   match table_from_pairs_loop_d [] pairs with
-  | COk m => TmOk (VInline m preamble false false decor_default None)
+  | COk m => TmOk (VInline (inline_spans_pass m pairs) preamble false false decor_default None)
   | CErr c => TmErr c
   | CPanic s => TmPanic s
   end.
